@@ -143,6 +143,76 @@ fn cov_transcript(rep: &mut Report, t: &Transcript, input_len: usize, cfg: &Conf
     rep.map("chunking", cfg.chunking.name());
 }
 
+/// Reads the input through the file-based constructors (`from_path`,
+/// `from_path_with_capacity`) and returns the transcript of next() calls
+pub fn transcript_from_path(fmt: Fmt, input: &[u8], cap: Option<usize>, max_calls: usize) -> Result<Vec<Obs>, String> {
+    use crate::api::{fa_err, fa_ref_obs, fq_err, fq_ref_obs};
+    use std::sync::atomic::{AtomicU64, Ordering};
+    static N: AtomicU64 = AtomicU64::new(0);
+    let dir = std::path::Path::new(env!("CARGO_MANIFEST_DIR")).join("target").join("verif-tmp");
+    std::fs::create_dir_all(&dir).map_err(|e| e.to_string())?;
+    let path = dir.join(format!("in_{}_{}", std::process::id(), N.fetch_add(1, Ordering::Relaxed)));
+    std::fs::write(&path, input).map_err(|e| e.to_string())?;
+    let mut out = vec![];
+    let res = guarded(|| -> Result<(), String> {
+        match fmt {
+            Fmt::Fasta => {
+                let mut r = match cap {
+                    Some(c) => seq_io::fasta::Reader::from_path_with_capacity(&path, c),
+                    None => seq_io::fasta::Reader::from_path(&path),
+                }
+                .map_err(|e| e.to_string())?;
+                let mut term = 0;
+                for _ in 0..max_calls {
+                    let o = match r.next() {
+                        None => Obs::End,
+                        Some(Ok(rec)) => Obs::Rec(fa_ref_obs(&rec)),
+                        Some(Err(e)) => Obs::Err(fa_err(e)),
+                    };
+                    let t = !matches!(o, Obs::Rec(_));
+                    out.push(o);
+                    if t {
+                        term += 1;
+                        if term == 3 {
+                            break;
+                        }
+                    }
+                }
+            }
+            Fmt::Fastq => {
+                let mut r = match cap {
+                    Some(c) => seq_io::fastq::Reader::from_path_with_capacity(&path, c),
+                    None => seq_io::fastq::Reader::from_path(&path),
+                }
+                .map_err(|e| e.to_string())?;
+                let mut term = 0;
+                for _ in 0..max_calls {
+                    let o = match r.next() {
+                        None => Obs::End,
+                        Some(Ok(rec)) => Obs::Rec(fq_ref_obs(&rec)),
+                        Some(Err(e)) => Obs::Err(fq_err(e)),
+                    };
+                    let t = !matches!(o, Obs::Rec(_));
+                    out.push(o);
+                    if t {
+                        term += 1;
+                        if term == 3 {
+                            break;
+                        }
+                    }
+                }
+            }
+        }
+        Ok(())
+    });
+    let _ = std::fs::remove_file(&path);
+    match res {
+        Ok(Ok(())) => Ok(out),
+        Ok(Err(e)) => Err(e),
+        Err(Caught::Panic(m)) | Err(Caught::Budget(m)) => Err(format!("panic: {}", m)),
+    }
+}
+
 // ---------------------------------------------------------------------------
 // C01
 
@@ -298,6 +368,23 @@ pub fn c01(ctx: &Ctx, rep: &mut Report) {
             let r = ref_fasta(&bytes);
             let extents: Vec<usize> = r.recs.iter().map(|x| x.extent()).collect();
             let input = Rc::new(bytes);
+            if !ctx.miri && rng.chance(1, 300) {
+                // the file-based constructors
+                let cap = if rng.chance(1, 2) { None } else { Some(gen::gen_cap(&mut rng, input.len(), &extents)) };
+                rep.evaluations += 1;
+                rep.count("reads_through_from_path");
+                let mut j = ctx.replay_json(idx);
+                j["input"] = json!(show(&input));
+                j["from_path_capacity"] = json!(cap);
+                match transcript_from_path(Fmt::Fasta, &input, cap, r.recs.len() + 6) {
+                    Err(m) => rep.violation("from-path", m, j),
+                    Ok(obs) => {
+                        if let Err((sig, what)) = check_fasta_transcript(&r, &obs, false, false) {
+                            rep.violation(&format!("fasta-from-path-{}", sig), what, j);
+                        }
+                    }
+                }
+            }
             for k in 0..2 {
                 let mut cfg = gen::gen_config(&mut rng, input.len(), &extents);
                 if ctx.miri {
@@ -583,6 +670,22 @@ pub fn c02(ctx: &Ctx, rep: &mut Report) {
             let r = crate::refmodel::ref_fastq(&bytes);
             let extents: Vec<usize> = r.recs.iter().map(|x| x.extent()).collect();
             let input = Rc::new(bytes);
+            if !ctx.miri && rng.chance(1, 300) {
+                let cap = if rng.chance(1, 2) { None } else { Some(gen::gen_cap(&mut rng, input.len(), &extents)) };
+                rep.evaluations += 1;
+                rep.count("reads_through_from_path");
+                let mut j = ctx.replay_json(idx);
+                j["input"] = json!(show(&input));
+                j["from_path_capacity"] = json!(cap);
+                match transcript_from_path(Fmt::Fastq, &input, cap, max_fastq_calls(&input)) {
+                    Err(m) => rep.violation("from-path", m, j),
+                    Ok(obs) => {
+                        if let Err((sig, what)) = check_fastq_transcript(&input, &obs, false, false) {
+                            rep.violation(&format!("fastq-from-path-{}", sig), what, j);
+                        }
+                    }
+                }
+            }
             for k in 0..2 {
                 let mut cfg = gen::gen_config(&mut rng, input.len(), &extents);
                 if ctx.miri {
